@@ -495,4 +495,6 @@ func runC11(c *Ctx) {
 	// the closed window and the reopen from the store are exercised on the stream core
 	mon := monitorStream("C11")
 	runStreamHistories(c, "c04", c.Pick(120, 1500), "c04", nil, mon, ignoredMonitor)
+	// servers older than 5.5.0: the close half closes the streams one by one
+	runLegacy(c, []string{"rebalance"})
 }
